@@ -6,7 +6,7 @@ from ..harness import qcall
 
 ID = "C04"
 LEVEL = "fault_enumeration"
-BUDGET = {"quick": 2400, "thorough": 320000}
+BUDGET = {"quick": 4800, "thorough": 320000}
 TECHNIQUE = "fault injection by generated corruption sequences; independent reference validator as the oracle"
 RULE = ("Hypothesis-generated 2D/3D plotfiles x a sequence of 1-2 corruption operators (27 kinds covering every "
         "C04 class: missing binary / level header, truncate / extend / insert / remove bytes, FAB header shape / "
